@@ -45,21 +45,15 @@ def _unfold_continuations(code_string):
   # not a line continuation. Collect the rows whose line break lies inside such
   # a token; only the other rows are unfolded.
   protected_rows = set()
-  fstring_start_rows = []
-  fstring_tokens = tuple(
-      getattr(tokenize, name) for name in ('FSTRING_START', 'FSTRING_END')
-      if hasattr(tokenize, name))
+  # Literal parts of f-strings are separate tokens as of Python 3.12. The
+  # replacement fields between them are ordinary code.
+  fstring_middle = getattr(tokenize, 'FSTRING_MIDDLE', None)
   try:
     for tok in tokenize.generate_tokens(io.StringIO(code_string).readline):
       if tok.type == tokenize.COMMENT:
         protected_rows.add(tok.start[0])
-      elif tok.type == tokenize.STRING:
+      elif tok.type == tokenize.STRING or tok.type == fstring_middle:
         protected_rows.update(range(tok.start[0], tok.end[0]))
-      elif fstring_tokens and tok.type == fstring_tokens[0]:
-        fstring_start_rows.append(tok.start[0])
-      elif fstring_tokens and tok.type == fstring_tokens[1]:
-        if fstring_start_rows:
-          protected_rows.update(range(fstring_start_rows.pop(), tok.end[0]))
   except (tokenize.TokenError, IndentationError, SyntaxError):
     # Incomplete or oddly indented code (e.g. a lambda cut out of its
     # statement). Rows seen so far are still handled properly.
